@@ -14,9 +14,12 @@ from gen import extract
 def main():
     boot.boot()
     gens, props, drivers = [], [], []
-    for f in sorted(os.listdir(os.path.join(HERE, 'checks'))):
-        if f.startswith('C') and f.endswith('.py'):
-            mod = importlib.import_module('checks.' + f[:-3])
+    import json
+    manifest = json.load(open(os.path.join(boot.VERIF, 'MANIFEST.json')))
+    claimed = sorted(c['property_id'] for c in manifest['checks'])
+    for pid in claimed:
+        if True:
+            mod = importlib.import_module('checks.' + pid)
             for g in mod.SPEC.get('gen', []):
                 if g not in gens:
                     gens.append(g)
